@@ -13,7 +13,7 @@ use futures::stream::Stream;
 use crate::exec::{self, st, N};
 use crate::graphs::{sym_run_graph, Fx};
 use crate::nd;
-use crate::{vassert, vcover};
+use crate::{vassert, vcover, vlog};
 
 /// The C05 idle oracle: the stream is pending with no wake-up signalled, so
 /// every function not yet yielded must still be blocked by a predecessor whose
@@ -32,7 +32,6 @@ pub fn idle_oracle() {
                 u += 1;
             }
             vassert!(blocked, "C05: stream pending without wake-up although every predecessor FnRef of an unyielded function was dropped");
-            vassert!(blocked, "C06: stream idle although a function whose predecessors all returned has not been handed out");
         }
         v += 1;
     }
@@ -65,11 +64,12 @@ macro_rules! stream_step {
                 $held[v] = Some(fn_ref);
             }
             Poll::Ready(None) => {
+                vlog!("poll -> None");
                 vassert!(all_yielded, "C05: stream ended before every function was yielded");
-                vassert!(all_yielded, "C03: stream ended without every function handed out exactly once");
                 $ended = true;
             }
             Poll::Pending => {
+                vlog!("poll -> Pending (woken: {})", exec::is_woken());
                 vassert!(!$ended, "C05: stream pending after it had ended");
                 vassert!(!all_yielded, "C05: stream did not end although every function was yielded");
                 if !exec::is_woken() {
@@ -167,8 +167,11 @@ pub fn h_stream_rerun(n: usize, shape: Option<&[(u8, u8, u8)]>, rev: bool) {
         }
         v += 1;
     }
+    // FnRefs of the first run: some are dropped before its stream, some right
+    // after it, and the rest only while the second run is in progress.
+    let mut held1: [Option<FnRef<'_, Fx>>; N] = [const { None }; N];
     {
-        let mut held: [Option<FnRef<'_, Fx>>; N] = [const { None }; N];
+        let held = &mut held1;
         let mut ended = false;
         let drops: usize = if N > 2 { 2 } else { N };
         let refs_first = nd::boolean();
@@ -194,12 +197,15 @@ pub fn h_stream_rerun(n: usize, shape: Option<&[(u8, u8, u8)]>, rev: bool) {
         }
         let mut v = 0;
         while v < N {
-            let r = held[v].take();
-            drop(r);
+            if nd::boolean() {
+                let r = held[v].take();
+                drop(r);
+            }
             v += 1;
         }
         let _ = ended;
     }
+    let lingering = held1.iter().any(|r| r.is_some());
     let (_, _, counts_after) = fn_graph::verif_hooks::fn_graph_parts(&g);
     let mut v = 0;
     while v < N {
@@ -218,11 +224,31 @@ pub fn h_stream_rerun(n: usize, shape: Option<&[(u8, u8, u8)]>, rev: bool) {
         let opts = if rev { StreamOpts::new().rev() } else { StreamOpts::new() };
         let stream = g.stream_with(opts);
         let mut stream = pin!(stream);
-        #[cfg(feature = "n2")]
-        stream_steps!(stream, cx, held, ended, drops, [1 2 3 4 5]);
-        #[cfg(not(feature = "n2"))]
-        stream_steps!(stream, cx, held, ended, drops, [1 2 3 4 5 6 7]);
+        macro_rules! rerun_step {
+            () => {{
+                // a FnRef left over from the abandoned run may be dropped at any time
+                let mut v = 0;
+                while v < N {
+                    if held1[v].is_some() && nd::boolean() {
+                        let r = held1[v].take();
+                        drop(r);
+                    }
+                    v += 1;
+                }
+                stream_step!(stream, cx, held, ended, drops);
+            }};
+        }
+        rerun_step!();
+        rerun_step!();
+        rerun_step!();
+        rerun_step!();
+        rerun_step!();
+        if N > 2 {
+            rerun_step!();
+            rerun_step!();
+        }
         vcover!(ended, "reach: second stream ended with None");
+        vcover!(ended && lingering, "a FnRef of the abandoned run outlived it");
         vassert!(!ended || st().started_count() == n, "C15: a run after an abandoned run ended without every function handed out");
     }
     let mut v = 0;
